@@ -32,8 +32,9 @@ class CTRLInterface(UDPLink):
 		self.rsp_delay_ms = 0
 
 	def handle_rx(self):
-		# Read data from socket
-		data, remote = self.sock.recvfrom(128)
+		# Read data from socket (the L1 side may send commands up to 1024
+		# bytes long, e.g. trxcon's TRXC_BUF_SIZE for SETFH with up to 64 channels)
+		data, remote = self.sock.recvfrom(1024)
 		data = data.decode()
 
 		if not self.verify_req(data):
